@@ -251,6 +251,9 @@ func runC01(w *World, r *Report) {
 	// a vertex admitted without an edge from each declared parent is a root, and roots are exempt from the funds check
 	parentsExist(w, r, "admitted-vertex-has-its-parents")
 	checkpointCountsOnlyTheWalked(w, r, "checkpoint-counts-only-the-walked")
+	// … and every walked vertex is folded: a vertex that is stored and pruned without having been counted takes its
+	// spend out of the checkpoint the next validation starts from
+	saveWhatIsCounted(w, r, truncateModel(w))
 	// the funds validation adds amounts with Supply, which is exact on canonical amounts only
 	canonicalAtEntry(w, r)
 
